@@ -4,7 +4,7 @@
       of the sequential model against the implementation also validates these LTS paths).
    2. Safety invariants over ALL interleavings (see the end of the file for what is complete).
    Proof file. *)
-From GL Require Import Conc.Cache Conc.CacheLemmas Conc.CacheInv Conc.CacheProofs Conc.CacheLts.
+From GL Require Import Conc.Cache Conc.CacheLemmas Conc.CacheInv Conc.CacheProofs Conc.CacheTheorems Conc.CacheLts.
 From Coq Require Import Lia.
 
 (* ---------------------------------------------------------------- locked parts vs. sequential methods *)
@@ -63,10 +63,11 @@ Proof.
   eapply drains_one; [apply drains_dec_ext|apply IH].
 Qed.
 
-Lemma drains_promote x s : drains s [IPromote x] (lru_promote x s).
+Lemma drains_promote x s k s2 : drains (lru_promote x s) (IHandle x :: k) s2 -> drains s (IPromote x :: k) s2.
 Proof.
-  rewrite lru_promote_split. destruct (promote_locked x s) as [s' ev] eqn:E.
-  econstructor; [cbn; rewrite E; reflexivity|]. rewrite app_nil_r. apply drains_decs.
+  intro D. rewrite lru_promote_split in D. destruct (promote_locked x s) as [s' ev] eqn:E.
+  econstructor; [cbn; rewrite E; reflexivity|]. rewrite <- app_assoc.
+  eapply drains_app; [apply drains_decs|exact D].
 Qed.
 Lemma drains_ban x s : drains s [IBan x] (lru_ban x s).
 Proof.
@@ -87,12 +88,13 @@ Qed.
 
 Lemma drains_get_finish x s n v :
   find_id x (s_nodes (if s_cacher s then lru_promote x s else s)) = Some n -> n_val n = Some v ->
-  drains s ((if s_cacher s then [IPromote x] else []) ++ [IHandle x]) (fst (get_finish x s)).
+  drains s (if s_cacher s then [IPromote x] else [IHandle x]) (fst (get_finish x s)).
 Proof.
   intros F V. unfold get_finish. cbv zeta. rewrite F, V. cbn [fst].
-  eapply drains_app with (s1 := if s_cacher s then lru_promote x s else s).
-  - destruct (s_cacher s); [apply drains_promote|constructor].
-  - econstructor; [cbn; rewrite F, V; reflexivity|]. constructor.
+  assert (forall z, find_id x (s_nodes z) = Some n ->
+            drains z [IHandle x] (set_next_hid (s_next_hid z + 1) (set_handles ((s_next_hid z, x) :: s_handles z) z))) as HH.
+  { intros z Fz. econstructor; [cbn; rewrite Fz, V; reflexivity|]. constructor. }
+  destruct (s_cacher s); [apply drains_promote|]; apply HH; exact F.
 Qed.
 
 (* the sequential operation is one run of the goroutine's code, started by the operation's first
@@ -109,7 +111,7 @@ Proof.
       [|do 3 eexists; split; [reflexivity|constructor]].
     do 3 eexists; split; [reflexivity|].
     assert (forall z, s_panic (fst (get_finish x z)) = false ->
-              drains z ((if s_cacher z then [IPromote x] else []) ++ [IHandle x]) (fst (get_finish x z))) as GF.
+              drains z (if s_cacher z then [IPromote x] else [IHandle x]) (fst (get_finish x z))) as GF.
     { intros z Hz. unfold get_finish in Hz. cbv zeta in Hz.
       destruct (find_id x (s_nodes (if s_cacher z then lru_promote x z else z))) as [n|] eqn:F; [|cbn in Hz; discriminate].
       destruct (n_val n) as [v|] eqn:V; [|cbn in Hz; discriminate]. eapply drains_get_finish; eauto. }
@@ -128,28 +130,35 @@ Proof.
     do 3 eexists; split; [reflexivity|]. apply drains_dec_ext.
   - (* Delete *)
     unfold cache_delete_op in *. destruct (s_closed s); [do 3 eexists; split; [reflexivity|constructor]|].
-    destruct (bucket_get ns key true (if with_del then set_next_did (s_next_did s + 1) s else s)) as [s1 [x|]] eqn:B;
-      [|do 3 eexists; split; [reflexivity|constructor]].
-    do 3 eexists; split; [reflexivity|]. cbn [fst] in *.
-    set (s2 := if with_del then _ else s1) in *.
-    assert (s_cacher s2 = s_cacher s1) as Cq.
-    { subst s2. destruct with_del; auto. destruct (find_id x (s_nodes s1)); reflexivity. }
-    eapply drains_app with (s1 := s2).
-    + subst s2. destruct with_del; [|constructor].
-      destruct (find_id x (s_nodes s1)) as [n|] eqn:F.
-      * econstructor; [cbn [exec]; rewrite F; reflexivity|]. constructor.
-      * exfalso.
-        assert (forall z, s_panic z = true -> s_panic (unref_internal x z) = true) as Up.
-        { intros z Pz. unfold unref_internal. destruct (find_id x (s_nodes z)); [|exact Pz].
-          destruct (n_ref n - 1 =? 0)%Z; unfold upd_node; sred; [|exact Pz].
-          unfold cache_delete. sred. destruct (find_key (n_ns n) (n_key n) _); [|sred; exact Pz].
-          destruct (n_ref n0 =? 0)%Z; sred; exact Pz. }
-        match type of NP with s_panic (unref_internal x ?z) = false => assert (s_panic z = true) as Pz end.
-        { destruct (s_cacher _); [|reflexivity]. unfold lru_ban. sred. rewrite F. reflexivity. }
-        rewrite (Up _ Pz) in NP. discriminate.
-    + rewrite <- Cq. eapply drains_app with (s1 := if s_cacher s2 then lru_ban x s2 else s2).
-      * destruct (s_cacher s2); [apply drains_ban|constructor].
-      * apply drains_dec_int. auto.
+    assert (bucket_get ns key true (if with_del then set_next_did (s_next_did s + 1) s else s) =
+            ((if with_del then set_next_did (s_next_did s + 1) (fst (bucket_get ns key true s)) else fst (bucket_get ns key true s)),
+             snd (bucket_get ns key true s))) as B'.
+    { destruct with_del; [apply bucket_get_next_did|]. destruct (bucket_get ns key true s); reflexivity. }
+    rewrite B' in *. clear B'.
+    assert (s_next_did (fst (bucket_get ns key true s)) = s_next_did s) as Dd.
+    { unfold bucket_get. destruct (find_key ns key (s_nodes s)); reflexivity. }
+    destruct (bucket_get ns key true s) as [s1 [x|]] eqn:B; cbn [fst snd] in *.
+    2: { do 3 eexists; split; [reflexivity|]. rewrite Dd. destruct with_del; constructor. }
+    do 3 eexists; split; [reflexivity|].
+    assert (forall z, drains z ((if s_cacher z then [IBan x] else []) ++ [IDec x false])
+                              (unref_internal x (if s_cacher z then lru_ban x z else z))) as Tail.
+    { intro z. eapply drains_app with (s1 := if s_cacher z then lru_ban x z else z).
+      - destruct (s_cacher z); [apply drains_ban|constructor].
+      - apply drains_dec_int. auto. }
+    destruct with_del; cbn [app]; [|apply Tail].
+    sred. destruct (find_id x (s_nodes s1)) as [n|] eqn:F.
+    + eapply drains_one.
+      * econstructor; [cbn [exec]; rewrite F, Dd; reflexivity|]. constructor.
+      * match goal with |- drains ?z _ _ => replace (s_cacher s1) with (s_cacher z) by reflexivity end. apply Tail.
+    + exfalso.
+      assert (forall z, s_panic z = true -> s_panic (unref_internal x z) = true) as Up.
+      { intros z Pz. unfold unref_internal. destruct (find_id x (s_nodes z)); [|exact Pz].
+        destruct (n_ref n - 1 =? 0)%Z; unfold upd_node; sred; [|exact Pz].
+        unfold cache_delete. sred. destruct (find_key (n_ns n) (n_key n) _); [|sred; exact Pz].
+        destruct (n_ref n0 =? 0)%Z; sred; exact Pz. }
+      match type of NP with s_panic (unref_internal x ?z) = false => assert (s_panic z = true) as Pz end.
+      { destruct (s_cacher _); [|reflexivity]. unfold lru_ban. sred. rewrite F. reflexivity. }
+      rewrite (Up _ Pz) in NP. discriminate.
   - (* Evict *)
     unfold cache_evict_op in *. destruct (s_closed s); [do 3 eexists; split; [reflexivity|constructor]|].
     destruct (bucket_get ns key true s) as [s1 [x|]]; [|do 3 eexists; split; [reflexivity|constructor]].
@@ -165,36 +174,17 @@ Proof.
     destruct (run_evict_loop (set_cap c s)) as [s1 ev]. do 3 eexists; split; [reflexivity|]. apply drains_decs.
   - (* Close *)
     unfold cache_close. destruct (s_closed s) eqn:Hc; [do 3 eexists; split; [reflexivity|constructor]|].
-    do 3 eexists; split; [reflexivity|].
-    assert (forall l z, s_cacher z = s_cacher s -> s_closed z = true ->
-              drains z (flat_map (fun x => (if force then [IStoreZero x] else []) ++
-                                           (if s_cacher s then [IEvict x] else []) ++
-                                           (if force then [IFinalize x] else [])) l)
-                     (fold_left (close_node force) l z)) as Q.
-    { induction l as [|x l IH]; intros z Cz Hz; cbn [flat_map fold_left]; [constructor|].
-      eapply drains_app with (s1 := close_node force z x).
-      - unfold close_node.
-        set (z1 := if force then upd_node x (nd_ref 0%Z) z else z).
-        assert (s_cacher z1 = s_cacher s) as C1 by (subst z1; destruct force; auto).
-        eapply drains_app with (s1 := z1).
-        + subst z1. destruct force; [|constructor]. econstructor; [reflexivity|constructor].
-        + rewrite <- C1. eapply drains_app with (s1 := if s_cacher z1 then lru_evict x z1 else z1).
-          * destruct (s_cacher z1); [apply drains_evict|constructor].
-          * destruct force; [|constructor]. econstructor; [reflexivity|constructor].
-      - apply IH.
-        + destruct (step_raw_KK z (OClose force)) as [_ _]. (* cacher is constant through close_node *)
-          destruct (close_fold_KK force [x] z) as [A _]. cbn in A. congruence.
-        + unfold close_node.
-          set (z1 := if force then upd_node x (nd_ref 0%Z) z else z).
-          assert (s_closed z1 = true) as H1 by (subst z1; destruct force; auto).
-          set (z2 := if s_cacher z1 then lru_evict x z1 else z1).
-          assert (s_closed z2 = true) as H2.
-          { subst z2. destruct (s_cacher z1); auto. unfold lru_evict. destruct (find_id x (s_nodes z1)); auto.
-            destruct (n_lru n); auto. destruct (unref_external_same x (set_used (s_used (order_remove x z1) - Z.of_N (n_size n))
-              (upd_node x (nd_lru LAbsent) (order_remove x z1)))) as (_ & _ & _ & e & _). rewrite e.
-            unfold order_remove. destruct (in_order x (s_order z1)); exact H1. }
-          destruct force; auto. destruct (call_finalizer_same true x z2) as (_ & _ & _ & e & _). congruence. }
-    apply Q; reflexivity.
+    destruct force.
+    + do 3 eexists; split; [reflexivity|]. constructor.
+    + do 3 eexists; split; [reflexivity|].
+      assert (forall l z, s_cacher z = s_cacher s ->
+                drains z (if s_cacher s then map IEvict l else []) (fold_left (close_node false) l z)) as Q.
+      { induction l as [|x l IH]; intros z Cz; cbn [map fold_left]; [destruct (s_cacher s); constructor|].
+        assert (s_cacher (close_node false z x) = s_cacher s) as Cz'.
+        { destruct (close_fold_KK false [x] z) as [A _]. change (s_cacher (close_node false z x) = s_cacher z) in A. congruence. }
+        specialize (IH (close_node false z x) Cz'). unfold close_node in *. rewrite Cz in *.
+        destruct (s_cacher s); [|exact IH]. eapply drains_one; [apply drains_evict|exact IH]. }
+      apply Q. reflexivity.
 Qed.
 
 (* ---------------------------------------------------------------- the LTS contains the sequential semantics *)
@@ -248,12 +238,49 @@ Proof.
   - exists (linit c cap). split; [constructor|]. split; [reflexivity|constructor].
   - destruct IH as (L & RL & GL & IL). unfold run in *. rewrite fold_left_app. cbn [fold_left].
     set (s := fold_left (fun s o => fst (step s o)) ops (init c cap)) in *.
-    assert (Good s) as G by (apply reachable_good; exists c, cap, ops; reflexivity).
-    destruct (step_no_panic s o G) as [_ NP]. rewrite step_raw_fst in *.
+    assert (Good zq0 s) as G by (apply reachable_good; exists c, cap, ops; reflexivity).
+    destruct (step_no_panic zq0 s o G) as [_ NP]. rewrite step_raw_fst in *.
     destruct (seq_is_a_schedule s o NP) as (s1 & code & rl & St & Dr).
     destruct L as [g thr]. cbn in GL, IL. subst g.
     exists (mkL (fst (step_raw s o)) (set_thr 0 (mkThread [] rl) thr)). split; [|split; [reflexivity|]].
     + apply (drains_lreach 0 s1 code _ Dr rl thr). eapply lr_step with (a := AStart 0 o); [exact RL|].
       unfold lstep. cbn [l_thr l_g]. rewrite (all_idle_get 0 thr IL), (all_idle_norlock 0 thr IL), St. reflexivity.
     + cbn. now apply all_idle_set.
+Qed.
+
+Lemma lrun_o_reach tr : forall L L', lreach_o L -> lrun_o L tr = Some L' -> lreach_o L'.
+Proof.
+  induction tr as [|a tr IH]; intros L L' R E; cbn in E.
+  - injection E as <-. exact R.
+  - destruct (lstep_o L a) as [L1|] eqn:S; [|discriminate]. eapply IH; [|exact E]. eapply lo_step; eauto.
+Qed.
+
+(* the quiescent-close LTS also contains the sequential semantics *)
+Lemma all_idle_others t l : all_idle l -> others_idle t l = true.
+Proof.
+  intro H. unfold others_idle. apply forallb_forall. intros p Hp. eapply Forall_forall in H; eauto. cbn in H.
+  rewrite H. apply orb_true_r.
+Qed.
+
+(* ---------------------------------------------------------------- Close racing a pending zero-check: REFUTED
+   unRefExternal decrements the count, and only then takes Cache.mu.RLock and looks at r.closed; on a
+   closed cache it calls n.callFinalizer() WITHOUT re-checking the count.  If, between the decrement to 0
+   and that check, another goroutine's Get revives the node (0 -> 1, a hit on the still-linked node) and
+   a third goroutine closes the cache (without force), the value is finalised while the second
+   goroutine's handle is outstanding.  The unrestricted LTS exhibits it: *)
+Definition close_race_trace : list action :=
+  [ AStart 1 (OGet 0 0 (SfRet 1 true)); AStep 1; AStep 1;      (* goroutine 1: Get constructs value 0, handle 0 *)
+    AStart 1 (ORelease 0); AStep 1;                              (* goroutine 1: Release: count 1 -> 0, zero-check pending *)
+    AStart 2 (OGet 0 0 SfNil); AStep 2; AStep 2;                 (* goroutine 2: Get hits the node: count 0 -> 1, handle 1 *)
+    AStart 3 (OClose false);                                      (* goroutine 3: Close(false) *)
+    AStep 1 ].                                                    (* goroutine 1: sees closed: callFinalizer *)
+
+Theorem close_race_refuted :
+  exists L, lrun (linit false 0) close_race_trace = Some L /\
+    s_forced (l_g L) = false /\                                   (* not a force-close *)
+    handles_on 0 (s_handles (l_g L)) = 1%nat /\                   (* a handle on node 0 is outstanding *)
+    handle_node (l_g L) 1 <> None /\ handle_value (l_g L) 1 = None /\   (* ... and sees a dead (nil) value *)
+    In (EvConstruct 0 0 1) (s_log (l_g L)) /\ cf 0 (s_log (l_g L)) = 1%nat.   (* value 0 was finalised *)
+Proof.
+  eexists. split; [vm_compute; reflexivity|]. vm_compute. repeat split; auto. discriminate.
 Qed.
